@@ -58,6 +58,10 @@ pub trait LabProp: Sync {
     fn batch_size(&self) -> usize {
         24
     }
+    /// custom grammar builder (default: the general generator)
+    fn build(&self, _prof: &Profile, _stream: &[u32]) -> Option<Grammar> {
+        None
+    }
     /// optional rewrite applied to every generated grammar before anything else (e.g. probes)
     fn transform(&self, _g: &Grammar) -> Option<Grammar> {
         None
@@ -283,7 +287,7 @@ pub fn run_lab(p: &dyn LabProp, ctx: &Ctx, rep: &mut Report) -> LabOutcome {
         let gt = dice::draw_trees(&mut runner, 500, n);
         let it = dice::draw_trees(&mut runner, 6000, n);
         for (t, i) in gt.into_iter().zip(it) {
-            let mut g = ggen::build(prof, &t.current());
+            let mut g = p.build(prof, &t.current()).unwrap_or_else(|| ggen::build(prof, &t.current()));
             if let Some(g2) = p.transform(&g) {
                 g = g2;
             }
@@ -340,7 +344,7 @@ pub fn run_lab(p: &dyn LabProp, ctx: &Ctx, rep: &mut Report) -> LabOutcome {
             let mut steps = 0;
             let mut fails = |stream: &[u32]| -> bool {
                 steps += 1;
-                let mut g2 = ggen::build(&prof, stream);
+                let mut g2 = p.build(&prof, stream).unwrap_or_else(|| ggen::build(&prof, stream));
                 if let Some(g3) = p.transform(&g2) {
                     g2 = g3;
                 }
